@@ -52,8 +52,7 @@ Lz5Cmd(inp, bitmap, a, bit) ==
               ELSE LET c0 == inp[a.ipos + 1]
                        c1 == inp[a.ipos + 2]
                        p == (c1 \div 16) * 256 + c0
-                       d == (WPos(a.win, Lz5W, Lz5Start) + 2 * Lz5W - 1 - p) % Lz5W
-                       o == WCopy(a.win, d, (c1 % 16) + Lz5Threshold, Lz5W, Lz5Start, Lz5InitAt)
+                       o == RingCopy(a.win, p, (c1 % 16) + Lz5Threshold, Lz5W, Lz5Start, Lz5InitAt)
                    IN [a EXCEPT !.ipos = @ + 2, !.win = WPush(a.win, o, Lz5W), !.out = @ \o o]
 
 Lz5Read(st) ==
